@@ -13,7 +13,7 @@
 (*          client had read when the call returned                         *)
 (*   ret    the projected outcome of the call                              *)
 (* A panic of the code under test and a call that does not return (the     *)
-(* watchdog fired) are logged as op "panic" / "timeout", for which there   *)
+(* watchdog fired) are logged as op "panic" / "hang", for which there      *)
 (* is no step.                                                             *)
 (***************************************************************************)
 EXTENDS OciClientFaults, Json, IOUtils, TraceHdr
@@ -54,7 +54,7 @@ TNext ==
        [] e.op = "call" -> Begin(CallOf(e))
        [] e.op = "rt" -> Exchange(e.q, e.r) /\ BoundedErrorBody(e)
        [] e.op = "ret" -> Return(e) /\ CleanEOFIsConsistent(e)
-       [] OTHER -> FALSE          \* "panic", "timeout": no such behaviour in the specification
+       [] OTHER -> FALSE          \* "panic", "hang": no such behaviour in the specification
 TSpec == TInit /\ [][TNext]_<<l, vars>>
 
 \* The whole trace was consumed: one state per line after the header.
